@@ -47,14 +47,14 @@ def run(ctx):
     # 1. MC: the design (buffered response channel, guarded placement) satisfies the contract on every
     #    behaviour: n in 0..MaxN x outcome vectors x every interleaving x 6 strategies x entry points
     ctx.mc("Group", "GroupMC.cfg",
-           consts={"MaxN": 4, "AwareN": 3 if thorough else 1, "Cap": '"n"', "Guard": "TRUE"},
+           consts={"MaxN": 5 if thorough else 4, "AwareN": 3 if thorough else 1, "Cap": '"n"', "Guard": "TRUE"},
            workers=vf.NCPU, deadlock=False, timeout=3000)
     #    ... and the model explains the two defects of the code as pinned
     design_variant(ctx, "GroupPinnedLeak.cfg", {"MaxN": 3, "AwareN": 0, "Cap": '"zero"', "Guard": "TRUE"}, "EndedWhenNothingMoves")
     design_variant(ctx, "GroupPinnedPanic.cfg", {"MaxN": 1, "AwareN": 0, "Cap": '"n"', "Guard": "FALSE"}, "NoPanic")
 
     # 2. Gen
-    nrand = 60000 if thorough else 400
+    nrand = 150000 if thorough else 400
     gen = ctx.tlc("GroupGen", "GroupGen.cfg",
                   consts={"MaxN": 4, "AwareN": 3 if thorough else 2, "NRand": nrand, "MaxRandN": 8},
                   workers=4, timeout=1800)
